@@ -31,6 +31,7 @@ typedef struct rotenc {
 	uint8_t last_state;
 	uint8_t count;
 	uint16_t internal_count;
+	uint16_t count14;
 } rotenc_t;
 
 /*!
